@@ -354,7 +354,7 @@ def model_check_jobs(ctx, thorough):
             ctx.extra.setdefault("action_coverage", {})[cfg] = {a: list(c[a]) for a in acts}
 
     def guard(mod, cfg, inv):
-        r = tlc_run(mod, cfg, workers=2, xmx="1g")
+        r = tlc_run(mod, cfg, workers=2, xmx="1g", expect=inv)
         if inv not in r.invariant_violated:
             raise vlib.Infra("vacuity guard: %s/%s did not violate %s" % (mod, cfg, inv))
         ctx.extra.setdefault("vacuity_guards", []).append({"cfg": cfg, "violates": inv, "states": r.distinct})
